@@ -358,7 +358,8 @@ def twodspectrum_dictionary(name, dtype):
                 # return as pathway
                 #
                 if self.current_tag is not None:
-                    return piece[self.current_tag]
+                    # (a copy: what is read is not the storage)
+                    return piece[self.current_tag].copy()
             
                 #
                 # return as type
@@ -410,7 +411,8 @@ def twodspectrum_dictionary(name, dtype):
             
             if self.current_dtype in _ptypes:
                 try: 
-                    ret = storage[self.current_dtype]
+                    # (a copy: what is read is not the storage)
+                    ret = storage[self.current_dtype].copy()
                 except KeyError:
                     ret = None
                     
@@ -446,7 +448,8 @@ def twodspectrum_dictionary(name, dtype):
             
             if self.current_dtype in _processes:
                 try:
-                    ret = storage[self.current_dtype]
+                    # (a copy: what is read is not the storage)
+                    ret = storage[self.current_dtype].copy()
                 except KeyError:
                     ret = None
                     
@@ -471,7 +474,8 @@ def twodspectrum_dictionary(name, dtype):
 
             if self.current_dtype in _signals:
                 try:
-                    ret = storage[self.current_dtype]
+                    # (a copy: what is read is not the storage)
+                    ret = storage[self.current_dtype].copy()
                 except KeyError:
                     ret = None
                     
@@ -493,7 +497,8 @@ def twodspectrum_dictionary(name, dtype):
             
             if self.current_dtype == _total:
                 try:
-                    ret = storage[_total]
+                    # (a copy: what is read is not the storage)
+                    ret = storage[_total].copy()
                 except KeyError:
                     ret = None
                     
